@@ -62,6 +62,9 @@ func (a bitvec) andNot(b bitvec) bitvec {
 
 type bitvec [64]bit
 
+// archIntBits is the width of int/uint/uintptr on the architecture the package was loaded for.
+var archIntBits = 64
+
 func constVec(u uint64) bitvec {
 	var v bitvec
 	for i := 0; i < 64; i++ {
@@ -230,8 +233,10 @@ func typeWidth(t types.Type) (int, bool) {
 		return 16, true
 	case types.Uint32, types.Int32:
 		return 32, true
-	case types.Uint64, types.Int64, types.Uint, types.Int, types.Uintptr:
+	case types.Uint64, types.Int64:
 		return 64, true
+	case types.Uint, types.Int, types.Uintptr:
+		return archIntBits, true
 	case types.Bool:
 		return 1, true
 	}
